@@ -59,6 +59,8 @@ def run(ctx):
     rep.floor('sqrt functions', len(fns), 6)
     n1, n2 = roots.sign_and_ctx_rules(rep, F, fns)
     n3 = sign_tables(rep, F, fns)
+    ndf = roots.default_form(rep, F, r'sqrt')
+    rep.floor('default-context form', ndf, 1)
     nkg = roots.kernel_gates(rep, F, r'sqrt')
     rep.floor('kernel gateways', nkg, 1)
     n4 = S.sticky(rep, F, fns)
